@@ -127,6 +127,14 @@ def run(ctx):
                         bad("enc|" + f, "member %s is emitted as %s vs %s (field, key, optional, predicate)" % (f, ma.get(f), mb.get(f)))
                     else:
                         ctx.oblige(key + "|enc|" + f, True)
+                # a member that exists in only one of the two configurations must vanish from the encoding when it is not set:
+                # otherwise a value that uses only common members encodes differently where the feature is enabled
+                for side_enc, other_fields, lab in ((a["enc"], b["fields"], ca), (b["enc"], a["fields"], cb)):
+                    for m in side_enc:
+                        if m[0] not in other_fields:
+                            ctx.oblige(key + "|gated-skippable|" + m[0], m[2] is True and m[3] == T.IS_NONE and m[4] == m[0],
+                                       "%s.%s exists only with a feature (%s) but is emitted %s: a value that leaves it unset encodes differently across configurations" %
+                                       (path, m[0], extract.cfg_label(lab), "unconditionally" if not m[2] else "under %s(%s)" % (m[3], m[4])))
                 if [m[0] for m in ea] != [m[0] for m in eb]:
                     bad("enc-order", "relative emission order of common members %s vs %s" % ([m[0] for m in ea], [m[0] for m in eb]))
                 if a.get("enc_kind") != b.get("enc_kind"):
